@@ -131,6 +131,7 @@ package codegen
 //@ family deferredgroup [C13,C05,C04]
 //@   gosafe
 //@   at `send ec.deferredResults` requires val.Path == dg.Path && val.Label == dg.Label
+//@   at `send ec.deferredResults` requires calls(Dispatch) == 1 && (dg.FieldSet.Invalids > 0 ==> val.Result == graphql.Null)
 //@   goensures calls(send) == 1 && calls(Dispatch) == 1
 //@   ensures calls(AddInt32) == 1 && calls(spawn) == 1
 
